@@ -351,7 +351,7 @@ func (t *Int32Tree) Delete(key int32) {
 	t.root.lock()
 	defer t.root.unlock()
 
-	if !t.root.deleteKey(t.order, key) || t.root.count() > 1 {
+	if !t.root.deleteKey(t.order>>1, key) || t.root.count() > 1 {
 		// Root is only too small when fewer than 2 children
 		return
 	}
